@@ -52,8 +52,6 @@ def cases(ctx):
                     for idle, gaps in ((0, [0, 0, 0]), (5, [1, 5, 6]), (5, [6, 6, 0])):
                         for ign in (False, True):
                             out.append((dict(base, ignore_exc=ign), (size, idle), ops, rbo, fault_at, where, gaps))
-    if ctx.quick:
-        out = out[::2]
     return out
 
 
@@ -135,6 +133,18 @@ def search(ctx):
                 for sk in world.socks:
                     if sk.sid == fsid and not sk.closed and not any(getattr(o, "raw", None) is sk for o in world.socks):
                         why = why or "socket %d, on which call %d failed, was never closed" % (fsid, fop)
+            # quit retires the connection: it is closed when quit returns and no later call is sent on it
+            if why is None:
+                for i, o in enumerate(ops):
+                    if o[0] != 17 or results[i][0][0] != "o":
+                        continue
+                    for qsid, _ in by_op.get(i, []):
+                        sk = [x for x in world.socks if x.sid == qsid]
+                        if sk and not sk[0].closed:
+                            why = "quit (call %d) returned and its connection (socket %d) is still open" % (i, qsid)
+                        for j in range(i + 1, len(ops)):
+                            if any(sid == qsid for sid, _ in by_op.get(j, [])):
+                                why = "call %d was sent on socket %d, the connection that call %d had quit" % (j, qsid, i)
             if why is None and fault_at is None and pc[1] == 0:
                 # healthy connection is reused, not reopened (quit closes on purpose)
                 opened = sum(1 for e in trace if e[0] == 1)
